@@ -592,6 +592,74 @@ theorem fieldRT_unsigned_array (P : Profile) (hwf : ProfileWF P = true) (dm : De
     | cons a as ih => simp only [List.map_cons, List.filterMap_cons, ih]
   rw [hparse]
 
+
+theorem enc_one (arch : Endian) (x : Nat) : arch.enc 1 x = [UInt8.ofNat (x % 256)] := by
+  cases arch <;> simp [Endian.enc, natLE, natBE]
+
+/-- **A byte-array field, end to end** (full length, every element a byte). -/
+theorem fieldRT_byte_array (P : Profile) (hwf : ProfileWF P = true) (dm : DefMsg) (pf : PField) (xs : List Nat)
+    (hgf : P.getField dm.global pf.num = some pf)
+    (hnat : tcKind pf.tcode = .native) (harr : tcArray pf.tcode = true) (hb : tcBase pf.tcode = Base.byte)
+    (hlen : xs.length = pf.length) (hx : ∀ x ∈ xs, x < 256) :
+    FieldRT P dm pf (.sl (.u 8)) (.us (some xs)) := by
+  intro msg ts part hpart
+  obtain ⟨pm, hpm, hfw⟩ := getField_wf P hwf _ _ _ hgf
+  have facts := fieldWF_facts pm pf hfw
+  obtain ⟨k, hl, hslot⟩ := facts.slot
+  have hsc : scOfBase (tcBase pf.tcode) = some (.u 8) := by rw [hb]; decide
+  have hns : tcBase pf.tcode ≠ Base.string := by rw [hb]; decide
+  have hsize : Base.size (tcBase pf.tcode) = 1 := by rw [hb]; decide
+  have hk : k = .sl (.u 8) := by
+    unfold slotOfType at hslot
+    rw [hnat] at hslot
+    simp only [hsc, harr, ↓reduceIte, Option.some.injEq] at hslot
+    exact hslot.symm
+  subst hk
+  have hl256 : pf.length < 256 := by
+    have := facts.lenB (Or.inl harr)
+    rw [hsize] at this
+    omega
+  have hw := writeField_unsigned_array dm.arch pf 1 xs harr hns hnat hlen hl256
+  rw [show (8 * 1 : Nat) = 8 by rfl] at hw
+  rw [hw] at hpart
+  cases hpart
+  have hflat : (xs.map (dm.arch.enc 1)).flatten = xs.map fun x => UInt8.ofNat (x % 256) := by
+    have : ∀ l : List Nat, (l.map (dm.arch.enc 1)).flatten = l.map fun x => UInt8.ofNat (x % 256) := by
+      intro l
+      induction l with
+      | nil => rfl
+      | cons a as ih => simp only [List.map_cons, List.flatten_cons, enc_one, ih, List.singleton_append]
+    exact this xs
+  have hsz : szOf pf = pf.length := by
+    unfold szOf
+    simp only [hns, ↓reduceIte, harr, hsize]
+    omega
+  refine ⟨ts, ?_⟩
+  unfold applyField
+  simp only [fdOf, hgf, hpm, hl, hnat, harr]
+  simp only [Bool.not_true, Bool.false_eq_true, ↓reduceIte, and_false, false_and]
+  have htake : ((xs.map (dm.arch.enc 1)).flatten).take (szOf pf) = (xs.map (dm.arch.enc 1)).flatten := by
+    apply List.take_of_length_le
+    rw [hflat, List.length_map, hsz, hlen]
+  rw [htake]
+  have hparse : parseFitFieldArray dm.arch ⟨pf.num, szOf pf, tcBase pf.tcode⟩ (.sl (.u 8)) (xs.map (dm.arch.enc 1)).flatten =
+      .ok (some (.us (some xs))) := by
+    unfold parseFitFieldArray
+    simp only [hb, ↓reduceIte]
+    congr 4
+    rw [hflat, List.map_map]
+    have : ∀ l : List Nat, (∀ x ∈ l, x < 256) → l.map ((fun b : UInt8 => b.toNat) ∘ fun x => UInt8.ofNat (x % 256)) = l := by
+      intro l hl
+      induction l with
+      | nil => rfl
+      | cons a as ih =>
+        have ha := hl a (List.mem_cons_self ..)
+        simp only [List.map_cons, Function.comp, ih (fun x hx' => hl x (List.mem_cons_of_mem _ hx'))]
+        congr 1
+        simp [Nat.mod_eq_of_lt ha]
+    exact this xs hx
+  rw [hparse]
+
 /-! ### the empty string as a filler -/
 
 theorem utf8Valid_zeros (n : Nat) : utf8Valid (List.replicate n 0) = true := by
@@ -688,7 +756,8 @@ def valRT (pf : PField) (k : SlotKind) (v : Val) : Bool :=
       utf8Valid (b ++ List.replicate (pf.length - b.length) 0)
   | .sl (.u 8), .us (some xs) =>
     tcKind pf.tcode == .native && tcArray pf.tcode && decide (xs.length = pf.length) && xs.all (fun x => decide (x < 256)) &&
-      (tcBase pf.tcode == Base.enum || tcBase pf.tcode == Base.uint8 || tcBase pf.tcode == Base.uint8z)
+      (tcBase pf.tcode == Base.enum || tcBase pf.tcode == Base.uint8 || tcBase pf.tcode == Base.uint8z ||
+        tcBase pf.tcode == Base.byte)
   | .sl (.u 16), .us (some xs) =>
     tcKind pf.tcode == .native && tcArray pf.tcode && decide (xs.length = pf.length) && xs.all (fun x => decide (x < 65536)) &&
       (tcBase pf.tcode == Base.uint16 || tcBase pf.tcode == Base.uint16z)
@@ -734,11 +803,13 @@ theorem valRT_sound (P : Profile) (hwf : ProfileWF P = true) (dm : DefMsg) (pf :
     exact fieldRT_string P hwf dm pf b hgf h1 h2 h3 (by intro e; rw [e] at h4; cases h4) h5 h6 h7
   · simp only [Bool.and_eq_true, beq_iff_eq, decide_eq_true_eq, Bool.or_eq_true, List.all_eq_true] at h
     obtain ⟨⟨⟨⟨h1, h2⟩, h3⟩, h4⟩, h5⟩ := h
-    exact fieldRT_unsigned_array P hwf dm pf 1 _ hgf h1 h2 (Or.inl ⟨rfl, by
-      rcases h5 with (h | h) | h
-      · exact Or.inl h
-      · exact Or.inr (Or.inl h)
-      · exact Or.inr (Or.inr h)⟩) h3 (fun x hx => by have := h4 x hx; omega)
+    rcases h5 with ((h | h) | h) | h
+    · exact fieldRT_unsigned_array P hwf dm pf 1 _ hgf h1 h2 (Or.inl ⟨rfl, Or.inl h⟩) h3 (fun x hx => by have := h4 x hx; omega)
+    · exact fieldRT_unsigned_array P hwf dm pf 1 _ hgf h1 h2 (Or.inl ⟨rfl, Or.inr (Or.inl h)⟩) h3
+        (fun x hx => by have := h4 x hx; omega)
+    · exact fieldRT_unsigned_array P hwf dm pf 1 _ hgf h1 h2 (Or.inl ⟨rfl, Or.inr (Or.inr h)⟩) h3
+        (fun x hx => by have := h4 x hx; omega)
+    · exact fieldRT_byte_array P hwf dm pf _ hgf h1 h2 h h3 (fun x hx => h4 x hx)
   · simp only [Bool.and_eq_true, beq_iff_eq, decide_eq_true_eq, Bool.or_eq_true, List.all_eq_true] at h
     obtain ⟨⟨⟨⟨h1, h2⟩, h3⟩, h4⟩, h5⟩ := h
     exact fieldRT_unsigned_array P hwf dm pf 2 _ hgf h1 h2 (Or.inr (Or.inl ⟨rfl, h5⟩)) h3
@@ -947,12 +1018,13 @@ def mkMsg (n : Nat) (sets : List (Nat × Val)) : Msg :=
 
 /-- a settings file: two user_profile messages with different valid fields — a name in the first
     only — so the slice gets a union definition and each record carries invalid fillers (among them
-    the empty string); one hrm_profile message -/
+    the empty string); one hrm_profile message; one device_settings message with two full-length arrays -/
 def exampleSettings : FileSt :=
   { hdr := { size := 14, proto := 0x20, profile := 2115, dtype := fitTag },
     fileId := mkMsg 0 [(0, .u 2), (1, .u 1), (2, .u 7), (3, .u 12345), (4, .t 1000 0 0)],
     cidx := some 1,
-    slots := [[mkMsg 3 [(1, .s [65, 66]), (2, .u 1), (3, .u 30)], mkMsg 3 [(3, .u 41), (4, .u 180)]], [mkMsg 4 [(0, .u 1)]], [], [], []] }
+    slots := [[mkMsg 3 [(1, .s [65, 66]), (2, .u 1), (3, .u 30)], mkMsg 3 [(3, .u 41), (4, .u 180)]], [mkMsg 4 [(0, .u 1)]], [], [],
+              [mkMsg 2 [(2, .us (some [3600, 7200])), (8, .us (some [513]))]]] }
 
 def encodesSmall (arch : Endian) (f : FileSt) : Bool :=
   match encode Gen.profile arch f with
